@@ -18,6 +18,7 @@ cp /verif/known_findings.jsonl $hd/root/ 2>/dev/null
 sed -i "s#=> /repo#=> $wt#" $hd/harness/go.mod
 cp $wt/go.sum $hd/harness/go.sum
 (cd $hd/harness && go build -tags verif -o $hd/root/bin/verif .) || { echo "MUTANT $name: harness build failed"; exit 2; }
+case " $* " in *" C26 "*) (cd $hd/harness && go build -tags verif,purego -o $hd/root/bin/verif-purego .) ;; esac
 case " $* " in *" C17 "*) (cd $hd/harness && go build -race -tags verif -o $hd/root/bin/verif-race .) ;; esac
 for id in "$@"; do
   start=$(date +%s)
